@@ -4,7 +4,7 @@ from __future__ import annotations
 from . import e2_formula as F
 from .core import Unsupported
 from .c16_interp import Interp, NONE, SIGS, is_const, mem, op, show, free_syms, basic_index
-from .c16_ext import Agg, params, fact_of, content_root, raise_anchor
+from .c16_ext import Agg, params, fact_of, content_root, raise_anchor, good_paths
 
 EVT = "pyyeti/cla/dr_event.py"
 UFS = {"uf_reds", "ruf", "euf", "duf", "suf"}
@@ -35,7 +35,7 @@ def _pc_interp(ctx, rf, md, bd, kd, noinline=()):
         return None
 
     I = Interp(ctx, EVT, "_pre_calcs", pins=pins, cond=cond, kinds={rfm: "index", nrb: "count", save: "dict"}, noinline=noinline)
-    return fn, I, [p for p in I.paths() if p.status == "return"], (sol, m, b, k, nrb, rfm, save)
+    return fn, I, good_paths(ctx, I), (sol, m, b, k, nrb, rfm, save)
 
 
 def _au_interp(ctx, kd, cached, allrb=None, rf=None, lup=None, inline_pc=False):
@@ -65,7 +65,7 @@ def _au_interp(ctx, kd, cached, allrb=None, rf=None, lup=None, inline_pc=False):
 
     I = Interp(ctx, EVT, "apply_uf", pins=pins, cond=cond, kinds={rfm: "index", nrb: "count", save: "dict"},
                noinline=() if inline_pc else {"_pre_calcs"})
-    return fn, I, [p for p in I.paths() if p.status == "return"], (sol, ufr, m, b, k, nrb, rfm, save)
+    return fn, I, good_paths(ctx, I), (sol, ufr, m, b, k, nrb, rfm, save)
 
 
 def _rf_root(t):
@@ -109,6 +109,11 @@ def _effects(A, P, q, allowed=()):
         elif e.kind == "inplace":
             tgt = e.target
             what = f"in-place operator on `{show(P.norm(e.target))}`"
+        elif e.kind == "setattr" and P.obj(e.target) is None and "deep" not in repr(e.target) and e.target not in allowed:
+            A.req(f"{q}: member `{show(P.norm(e.target))}.{e.name}` of an input object is not rebound", False, e.node,
+                  "the caller's object is modified", fkey=f"C16-R4|{q}|setattr {show(P.norm(e.target))}.{e.name}")
+            n += 1
+            continue
         elif e.kind == "call":
             kw = dict(e.kws)
             for pn_, pv_ in zip(SIGS.get(e.name, []), e.args):
@@ -205,7 +210,7 @@ def r4_cache_purity(ctx):
     ff = ctx.src.func(EVT, "DR_Event.frf_apply_uf")
     I = Interp(ctx, EVT, "DR_Event.frf_apply_uf")
     A = Agg(ctx)
-    for P in [p for p in I.paths() if p.status == "return"]:
+    for P in good_paths(ctx, I):
         _effects(A, P, "frf_apply_uf")
     A.flush(ff)
 
@@ -328,6 +333,10 @@ def r5_documented_factors(ctx):
                     continue
                 seen.add(key)
                 name = f"{tag}: {key[0]}[{key[1]}] is scaled as documented ({w})"
+                nv = P.norm(e.value)
+                if nv[0] == "call" and nv[1] == "la.lu_solve" and nv[2] and fact_of(P, op("is", nv[2][0], NONE)) is True:
+                    A.req(name, False, e.node, f"`{show(nv)}` is evaluated on the path where `{show(nv[2][0])}` is None")
+                    continue
                 try:
                     val = cv(e.value)
                     ok = val.equals(w)
@@ -411,7 +420,7 @@ def r5_documented_factors(ctx):
     I = Interp(ctx, EVT, "DR_Event.frf_apply_uf", kinds={nrb: "scalar"})
     A = Agg(ctx)
     uf = [F.sym(f"uf{i}") for i in range(4)]
-    for P in [p for p in I.paths() if p.status == "return"]:
+    for P in good_paths(ctx, I):
         cv = Conv(P)
         got = {}
         for e in P.stores():
@@ -495,6 +504,14 @@ class Spaces:
             return "NR"
         return None
 
+    def dimT(self, t):
+        t = self.P.norm(t)
+        if t[0] == "idx" and t[2] == ("c", 1) and t[1][0] == "attr" and t[1][2] == "shape" and \
+                t[1][1] in tuple(("attr", ("s", self.sol), x) for x in "avd"):
+            return "T"
+        d = self.dim(t)
+        return d if d else "?"
+
     def itype(self, i):
         """(dom, cod) of an axis index or None"""
         P = self.P
@@ -537,7 +554,7 @@ class Spaces:
         if k == "s":
             if t[1] in (self.m, self.b, self.k):
                 nd = P.I.pins.get(("attr", t, "ndim"))
-                return ("N", "N" if nd == ("c", 2) else None)
+                return ("N", "N" if nd == ("c", 2) else ("-" if nd == ("c", 1) else None))
             return None
         if k == "attr":
             if t[1] in (("s", self.sol),) and t[2] in ("a", "v", "d"):
@@ -550,7 +567,7 @@ class Spaces:
             o = P.heap[t[1]]
             og = o.origin
             if og[0] == "call" and og[1] in ("np.empty", "np.zeros", "np.full") and og[2] and og[2][0][0] == "tup" and len(og[2][0]) >= 2:
-                return (self.dim(og[2][0][1]), "T")
+                return (self.dim(og[2][0][1]), self.dimT(og[2][0][2]) if len(og[2][0]) >= 3 else "-")
             if og[0] == "call" and og[1] in (".copy", "np.empty_like", "np.zeros_like", "copy.copy", "np.array") and og[2]:
                 return self.typ(og[2][0])
             return None
@@ -571,9 +588,17 @@ class Spaces:
                 return None
             out = []
             bi = 0
+            nreal = sum(1 for a_ in axes if a_ != NONE)
+            txt0 = show(P.norm(("idx", t[1], t[2])))
+            if base[1] == "-" and nreal > 1:
+                self.bad.append(("rank", f"`{txt0}`: a vector (1-D `{show(P.norm(t[1]))}`) is indexed like a matrix", self.node))
+                return None
+            if base[1] not in (None, "-") and t[1][0] == "s" and nreal == 1 and len(axes) == 2:
+                self.bad.append(("rank", f"`{txt0}`: a full matrix (2-D `{show(P.norm(t[1]))}`) is indexed like a vector of diagonal terms", self.node))
+                return None
             for a_ in axes:
                 if a_ == NONE:
-                    out.append(None)
+                    out.append("-" if not out else None)
                     continue
                 sp = base[bi] if bi < 2 else None
                 it = self.itype(a_)
@@ -601,11 +626,15 @@ class Spaces:
             ts = [self.typ(x) for x in t[2:]]
             if n == "matmul" and len(ts) == 2:
                 a_, b_ = ts
-                if a_ and b_ and a_[1] and b_[0] and a_[1] != "T" and not self.same(a_[1], b_[0]):
+                if a_ and a_[1] == "-":
+                    self.bad.append(("rank", f"`{show(P.norm(t))}`: matrix product with a vector of diagonal terms on the left", self.node))
+                elif a_ and b_ and a_[1] and b_[0] and a_[1] != "T" and not self.same(a_[1], b_[0]):
                     self.bad.append(("product-space", f"`{show(P.norm(t))}`: columns in space {a_[1]} times rows in space {b_[0]}", self.node))
                 elif a_ and b_ and a_[1] and b_[0]:
                     self.checked.append(show(P.norm(t)))
                 return (a_[0] if a_ else None, b_[1] if b_ else None)
+            if n == "mul" and any(x and x[1] in ("N", "NR", "EL", "RF") for x in ts) and any(x and x[1] == "T" for x in ts):
+                self.bad.append(("rank", f"`{show(P.norm(t))}`: elementwise product of a full matrix block with the solution (a matrix product is needed)", self.node))
             if n in ("add", "sub", "mul", "div"):
                 rows = [x[0] for x in ts if x and x[0]]
                 if len(rows) >= 2:
@@ -722,7 +751,8 @@ def r6_exits_and_typing(ctx):
                 _flush_spaces(ctx, A, S, "_pre_calcs", tag, fn)
             # genforce has one row per non-rb equation
             gt = (cache or {}).get("genforce")
-            A.req(f"{tag}: genforce has one row per non-rb equation", (gt is not None and gt[0] == "A" and gt[1][0] == "NR") if gt else None, fn, repr(gt))
+            A.req(f"{tag}: genforce has one row per non-rb equation and one column per solution step",
+                  (gt is not None and gt[0] == "A" and gt[1][0] == "NR" and gt[1][1] == "T") if gt else None, fn, repr(gt))
             for key_, wantsp in (("elastic", ("N", "EL")), ("elastic_norb", ("NR", "EL")), ("rf_norb", ("NR", "RF"))):
                 v_ = (cache or {}).get(key_)
                 if key_ == "rf_norb" and not rf:
